@@ -5,6 +5,8 @@ pub mod c13;
 pub mod c14;
 pub mod c15;
 pub mod c16;
+pub mod c17;
+pub mod c19;
 pub mod treemodel;
 
 use crate::known::Known;
@@ -73,6 +75,30 @@ fn build_registry() -> Vec<PropDef> {
         run_case: c15::run_case,
         rule: "one case = one constraint system in R^n (n in 1..4, up to 12 rows) assembled from random base rows plus exact duplicates, positively scaled twins, negatively scaled twins (equality pairs), parallel rows with looser/tighter bias, zero rows with positive/zero/negative bias and contradictions; remove_tautologies, remove_duplicate_rows, remove_zero_rows, normalize, remove_rows (arbitrary index sets and oracle-proved redundant sets) and remove_redundant_row_constraints are each checked for: result is an order-preserving subsequence of the original rows (or the canonical empty/all-space form where the property allows it), exact two-way set inclusion with the input (certified simplex), and for the redundancy remover that no surviving row is implied by the other survivors by a margin 1e-6(1+|b|). Non-trivial = an operation dropped at least one row or the system contains a near-miss (negatively scaled twin, parallel row with different bias); distinct = hash of all coefficients.",
         assumptions: &["rows are exact multiples or clearly different (no rows that differ by a few ulps, which remove_duplicate_rows treats as equal by design)", "normalize is compared up to f64 rounding of the scaling and on points at least 1e-9 away from the boundary"],
+        watchdog_quick: 300,
+        watchdog_thorough: 1800,
+        exhaustive_note: None,
+    },
+    PropDef {
+        id: "C17",
+        level: "exploration",
+        cases_quick: 2_500,
+        cases_thorough: 250_000,
+        run_case: c17::run_case,
+        rule: "cases 0..511 enumerate the grid {ReLU, leaky ReLU x 5 alphas, hard tanh x 5 (min,max), hard shrink x 4 lambdas, hard sigmoid, threshold x 5 (theta,value), argmax, class characterisation x 4 classes, inf_norm x 6 bound combinations} x 4 dimensions x 4 rows, each evaluated on the full product lattice over {every breakpoint, +-1/2, +-1 beyond, 0} per component (all ties for argmax) when it has <= 4000 points (else 4000 samples) plus gaussian points; later cases draw random (kind, dim <= 6, row), from_poly with/without else-branch on random polytopes incl. exactly-on-boundary points, and from_slice+compose+remove_axes against the original tree evaluated on the embedded point. Both the library's evaluate() and an independent exact walk of the tree's raw nodes must equal the textbook definition (exact, 1e-12 for hard sigmoid). Non-trivial = at least one input on a breakpoint / tie / polytope boundary (slice cases always count); distinct = hash of (kind, parameters, dim, row) resp. of the polytope / tree and reference point.",
+        assumptions: &["textbook definitions as in PyTorch: hardshrink(x)= x if |x|>lambda else 0; threshold(x)= x if x>theta else value; hardsigmoid = clamp(x/6+1/2,0,1); hardtanh = clamp; argmax = first maximal index"],
+        watchdog_quick: 300,
+        watchdog_thorough: 1800,
+        exhaustive_note: Some("parameter grid x dims 1..4 x rows x product lattice is enumerated completely by cases 0..511 (evidence counter full_product_lattices)"),
+    },
+    PropDef {
+        id: "C19",
+        level: "exploration",
+        cases_quick: 6_000,
+        cases_thorough: 600_000,
+        run_case: c19::run_case,
+        rule: "70% of the cases: a random matrix/bias (1..8 rows x 1..30 columns; -0.0, 1e+-12 magnitudes, exact ties in |coefficient|, all-zero rows, values that round to zero) rendered as function or polytope under a random FormatOptions (sort threshold in {0,1,5,n,n+1}, simplify_zero, simplify_tautologies, normalize, skip_axes / skip_rows ranges: empty, interior, prefix, suffix, everything) at precision 0..6; the output is parsed back and every shown (coefficient, $index) pair, bias, inequality direction and truth symbol compared with the stored values (|shown - stored*scale| <= half a unit of the last printed digit, sign right unless printed as zero), indices unique, displayed rows an order-preserving subsequence of the stored rows, and every omission of terms/rows accompanied by an ellipsis. 30%: a random binary AffTree (scrambled arena; some with 21..25 input dimensions or 6..7 output rows so that the default skipping is active; zero predicates) rendered with Display and Dot: exactly one block/statement per arena node whose text parses back to that node's own function or predicate, exactly one edge statement per edge with the real label, correct T/D flag and children list. Non-trivial = sorting or an ellipsis was active, or the tree has non-contiguous indices / large dimensions; distinct = hash of object+options resp. tree structure.",
+        assumptions: &["coefficients are normal floats or (-)0.0; a normalised row may be scaled by 1/max|a|, 1/||a||_2 or 1/||a||_1 (any standard normalisation is accepted as faithful)", "DOT shape/style attributes are not part of the property and are not checked"],
         watchdog_quick: 300,
         watchdog_thorough: 1800,
         exhaustive_note: None,
